@@ -19,14 +19,20 @@ def main():
     beh_b = beh_b[run.seed % step::step] + [b for b in emit_sim(run, "MC_BigBed", "MC_BigBed_deep.cfg", 2000 if run.thorough else 250)
                                              if not any(it[1] == 0 and it[2] == 0 for it in b["items"])]
     cases = make_cases(beh_w, "bw", sizes, run) + make_cases(beh_b, "bb", sizes, run)
+    COLS = ["1", "+", "g\u00e9ne", "0,0,255", "\u540d\u524d", "x y", ".", "-7", "a;b", "100"]
+
+    def rest_cols(i):      # the harness's "cols" rest-of-line: k<i> plus (i mod 21) extra tab separated UTF-8 columns
+        return "k%d" % i + "".join("\t" + COLS[k % 10] for k in range(i % 21))
     for k, c in enumerate(cases):
         c["dump"] = os.path.join(run.wd, "f%d.bin" % k)
+        if c["kind"] == "bb" and k % 3 == 0:
+            c["restmode"] = "cols"     # multi-byte extra columns: byte lengths differ from character counts
     obs = run_harness("bbi", cases, run.wd, hang_timeout=20)
     lines = []
     for k, o in enumerate(obs):
         img = {"error": 1}
         if o["obs"].get("result") == "ok" and os.path.exists(o["dump"]):
-            rest_ids = {("k%d" % (i + 1)): i + 1 for i in range(len(o["items"]))}
+            rest_ids = {(rest_cols(i + 1) if o.get("restmode") == "cols" else "k%d" % (i + 1)): i + 1 for i in range(len(o["items"]))}
             img = project_image(bbi_codec.decode(open(o["dump"], "rb").read()), rest_ids)
             os.remove(o["dump"])
         line = {"kind": o["kind"], "items": o["items"], "chroms": o["chroms"], "opts": o["opts"], "result": o["obs"].get("result"), "img": img}
